@@ -119,8 +119,11 @@ class DirectMethod:
             self.opti.transcribe_placeholders(phase, kwargs["placeholders"])
 
     def transcribe(self, stage, phase=1, **kwargs):
-        if stage.nx>0 or stage.nu>0:
+        if stage.nx>0 or stage.nu>0 or stage.nz>0 or stage.nxq>0:
             raise Exception("You forgot to declare a method. Use e.g. ocp.method(MultipleShooting(N=3)).")
+        for grid in ["control", "integrator", "integrator_roots", "inf"]:
+            if stage._constraints[grid]:
+                raise Exception("Path constraints (grid='%s') need a method. Use e.g. ocp.method(MultipleShooting(N=3))." % grid)
         if phase==0: return
         if phase>1: return
         self.add_variables(stage, self.opti)
